@@ -42,6 +42,28 @@ type WResult struct {
 	CPUus   int64  `json:"c"`           // user+sys CPU microseconds
 	Reads   int64  `json:"n,omitempty"` // reads issued on an instrumented reader
 	Tail    string `json:"t,omitempty"` // stderr tail after a death
+	Stages  []StageM `json:"s,omitempty"`
+	Stage   string `json:"g,omitempty"` // stage running when a panic happened
+}
+
+// StageM is the cost of one step of a session.
+type StageM struct {
+	Name  string `json:"n"`
+	Alloc uint64 `json:"a"`
+	CPUus int64  `json:"c"`
+}
+
+// stage runs f, measuring its allocation and CPU time.
+func (r *WResult) stage(name string, f func()) {
+	var m0, m1 runtime.MemStats
+	r.Stage = name
+	runtime.ReadMemStats(&m0)
+	c0 := cpuMicros()
+	f()
+	c1 := cpuMicros()
+	runtime.ReadMemStats(&m1)
+	r.Stages = append(r.Stages, StageM{name, m1.TotalAlloc - m0.TotalAlloc, c1 - c0})
+	r.Stage = ""
 }
 
 // entry functions: return (val, err string)
@@ -293,6 +315,17 @@ func runBatches(r *mon.Run, cases []WCase, per, w int) []WResult {
 		}
 		copy(out[lo:hi], res)
 	})
+	// A child killed by a signal (OOM killer while several children hold giant
+	// allocations) or stopped by the watchdog says little about the case that
+	// happened to be running: re-run those cases alone, one at a time.
+	for i := range out {
+		if out[i].Outcome == "timeout" || (out[i].Outcome == "exit" && strings.Contains(out[i].Panic, "exit status -1")) {
+			r.Count("cases_rerun_alone", 1)
+			if res, err := runBatch(cases[i:i+1], 5*time.Minute); err == nil && len(res) == 1 {
+				out[i] = res[0]
+			}
+		}
+	}
 	return out
 }
 
